@@ -375,10 +375,19 @@ inproc_accept_clients(inproc_ep *srv)
 			    &pair->ref, 2, pair, inproc_pair_destroy);
 
 			spipe = cpipe = NULL;
-			if (((rv = nni_pipe_alloc_dialer(
-			          (void **) &cpipe, cli->dialer)) != 0) ||
-			    ((rv = nni_pipe_alloc_listener(
-			          (void **) &spipe, srv->listener)) != 0)) {
+			if ((rv = nni_pipe_alloc_dialer(
+			         (void **) &cpipe, cli->dialer)) != 0) {
+				// The client cannot have its pipe (it is
+				// being closed, or out of memory).  That is
+				// its problem alone: the accept stays posted
+				// for the next client.
+				nni_refcnt_rele(&pair->ref);
+				nni_refcnt_rele(&pair->ref);
+				inproc_conn_finish(caio, rv, cli, NULL);
+				continue;
+			}
+			if ((rv = nni_pipe_alloc_listener(
+			         (void **) &spipe, srv->listener)) != 0) {
 
 				// Neither pipe has been given the pair yet,
 				// so both references to it are still ours.
@@ -392,7 +401,12 @@ inproc_accept_clients(inproc_ep *srv)
 				}
 				nni_refcnt_rele(&pair->ref);
 				nni_refcnt_rele(&pair->ref);
-				inproc_conn_finish(caio, rv, cli, NULL);
+				// (a listener that is being closed refuses the
+				// connection; NNG_ECLOSED would tell the dialer
+				// that it has been closed itself)
+				inproc_conn_finish(caio,
+				    rv == NNG_ECLOSED ? NNG_ECONNREFUSED : rv, cli,
+				    NULL);
 				inproc_conn_finish(saio, rv, srv, NULL);
 				continue;
 			}
